@@ -115,6 +115,49 @@ Proof.
     + intros sid Hs. rewrite (f5 sid Hs). apply (ops_insert_ne _ _ _ _ _ e3 Hs).
 Qed.
 
+Lemma evict_all_spec order : forall s vs done s' done' v,
+  evict_all eps s vs order done = (s', done', v) ->
+  exists new, done' = done ++ new /\ (forall c, c ∈ new -> c ∈ vs) /\
+    evicts s' = evicts s /\ refuse_evict s' = refuse_evict s /\ (heap_ok s -> heap_ok s') /\
+    ops s' nsid = ops s nsid ++ map ev_op new /\ (forall sid, sid <> nsid -> ops s' sid = ops s sid).
+Proof.
+  induction order as [|x order IH]; intros s vs done s' done' v; simpl.
+  - intros [= <- <- <-]. exists []. rewrite !app_nil_r. repeat split; auto. intros c Hc; inversion Hc.
+  - destruct (find_task vs x) as [c|] eqn:Hf.
+    2:{ intros [= <- <- <-]. exists []. rewrite !app_nil_r. repeat split; auto. intros c Hc; inversion Hc. }
+    destruct (stmt_evict_with eps s nsid c None) as [s1 r1] eqn:He.
+    apply stmt_evict_with_spec in He as (e1 & e2 & e3 & e4).
+    intros H. apply IH in H as (new & -> & Hsub & f1 & f2 & f3 & f4 & f5).
+    exists (c :: new). rewrite <- app_assoc. simpl. split; [reflexivity|].
+    split.
+    { intros c0 Hc0. apply elem_of_cons in Hc0 as [->|Hc0]; [apply (find_task_in _ _ _ Hf)|].
+      apply Hsub in Hc0. apply elem_of_list_filter in Hc0. tauto. }
+    split; [congruence|]. split; [congruence|]. split; [auto|]. split.
+    + rewrite f4. rewrite (ops_insert_eq _ _ _ _ e3). rewrite <- app_assoc. reflexivity.
+    + intros sid Hs. rewrite (f5 sid Hs). apply (ops_insert_ne _ _ _ _ _ e3 Hs).
+Qed.
+
+(* the eviction phase of a node attempt, whichever of the three loops runs *)
+Lemma do_evictions_spec k s p pq a n vs s1 done fits v1 :
+  ops s nsid = [] ->
+  do_evictions eps E k s p pq a n vs = (s1, done, fits, v1) ->
+  (forall c, c ∈ done -> c ∈ vs) /\
+  evicts s1 = evicts s /\ refuse_evict s1 = refuse_evict s /\ (heap_ok s -> heap_ok s1) /\
+  ops s1 nsid = map ev_op done /\ (forall sid, sid <> nsid -> ops s1 sid = ops s sid).
+Proof.
+  intros Hn. unfold do_evictions. destruct (at_topo a && negb (is_reclaim k)).
+  - destruct (evict_all eps s vs (at_order a) []) as [[s1' done'] v'] eqn:Hl.
+    intros [= <- <- <- <-]. apply evict_all_spec in Hl as (new & -> & h1 & h2 & h3 & h4 & h5 & h6).
+    rewrite Hn in h5. simpl in *. repeat split; auto.
+  - destruct (is_reclaim k).
+    + destruct (evict_loop_rec eps s p (future_idle n) vs (at_order a) []) as [[[s1' done'] av] v'] eqn:Hl.
+      intros [= <- <- <- <-]. apply evict_loop_rec_spec in Hl as (new & -> & h1 & h2 & h3 & h4 & h5 & h6).
+      rewrite Hn in h5. simpl in *. repeat split; auto.
+    + destruct (evict_loop_pre eps E s pq p (at_node a) vs (at_order a) []) as [[s1' done'] v'] eqn:Hl.
+      intros [= <- <- <- <-]. apply evict_loop_pre_spec in Hl as (new & -> & h1 & h2 & h3 & h4 & h5 & h6).
+      rewrite Hn in h5. simpl in *. repeat split; auto.
+Qed.
+
 (* ---- one node attempt ---- *)
 
 (* what every attempt guarantees, successful or not *)
@@ -190,25 +233,8 @@ Proof.
   set (vs := victims eps (with_qorder E (at_qorder a)) k s p cands).
   destruct (negb (less_equal eps (t_init p) (sum_reqs (future_idle n) vs) DZero)).
   { intros [= <- <- <- <-]. split; [apply att_post_unchanged; auto|]. intros r Hr; inversion Hr. }
-  (* the loop *)
-  assert (Hloop : forall s1 done fits v1,
-     (if is_reclaim k
-      then let '(s1, done, avail, v) := evict_loop_rec eps s p (future_idle n) vs (at_order a) [] in
-           (s1, done, less_equal eps (t_init p) avail DZero && queue_allocatable E s1 pq p, v)
-      else let '(s1, done, v) := evict_loop_pre eps E s pq p (at_node a) vs (at_order a) [] in
-           (s1, done, preemptor_fits eps E s1 pq p (at_node a), v)) = (s1, done, fits, v1) ->
-     (forall c, c ∈ done -> c ∈ vs) /\
-     evicts s1 = evicts s /\ refuse_evict s1 = refuse_evict s /\ (heap_ok s -> heap_ok s1) /\
-     ops s1 nsid = map ev_op done /\ (forall sid, sid <> nsid -> ops s1 sid = ops s sid)).
-  { intros s1 done fits v1. destruct (is_reclaim k).
-    - destruct (evict_loop_rec eps s p (future_idle n) vs (at_order a) []) as [[[s1' done'] av] v'] eqn:Hl.
-      intros [= <- <- <- <-]. apply evict_loop_rec_spec in Hl as (new & -> & h1 & h2 & h3 & h4 & h5 & h6).
-      rewrite Hn in h5. simpl in *. repeat split; auto.
-    - destruct (evict_loop_pre eps E s pq p (at_node a) vs (at_order a) []) as [[s1' done'] v'] eqn:Hl.
-      intros [= <- <- <- <-]. apply evict_loop_pre_spec in Hl as (new & -> & h1 & h2 & h3 & h4 & h5 & h6).
-      rewrite Hn in h5. simpl in *. repeat split; auto. }
-  destruct (if is_reclaim k then _ else _) as [[[s1 done] fits] v1].
-  specialize (Hloop _ _ _ _ eq_refl). destruct Hloop as (hsub & h2 & h3 & h4 & h5 & h6).
+  destruct (do_evictions eps E k s p pq a n vs) as [[[s1 done] fits] v1] eqn:Hdo.
+  destruct (do_evictions_spec _ _ _ _ _ _ _ _ _ _ _ Hn Hdo) as (hsub & h2 & h3 & h4 & h5 & h6).
   (* the record of this attempt is sound whatever its outcome *)
   assert (Hsound : forall b, rec_sound (mkRec k s p pq (at_node a) cands (at_qorder a) done b)).
   { intros b. exists n. simpl. split; [exact Hnode|]. split.
@@ -265,19 +291,16 @@ Proof.
   destruct (is_reclaim k && bool_decide (cands = [])); [intros [= <- <- <- <-]; reflexivity|].
   set (vs := victims eps (with_qorder E (at_qorder a)) k s p cands).
   destruct (negb (less_equal eps (t_init p) (sum_reqs (future_idle n) vs) DZero)); [intros [= <- <- <- <-]; reflexivity|].
-  assert (Hloop : forall s1 done fits v1,
-     (if is_reclaim k
-      then let '(s1, done, avail, v) := evict_loop_rec eps s p (future_idle n) vs (at_order a) [] in
-           (s1, done, less_equal eps (t_init p) avail DZero && queue_allocatable E s1 pq p, v)
-      else let '(s1, done, v) := evict_loop_pre eps E s pq p (at_node a) vs (at_order a) [] in
-           (s1, done, preemptor_fits eps E s1 pq p (at_node a), v)) = (s1, done, fits, v1) -> heap_ok s1).
-  { intros s1 done fits v1. destruct (is_reclaim k).
-    - destruct (evict_loop_rec eps s p (future_idle n) vs (at_order a) []) as [[[s1' done'] av] v'] eqn:Hl.
-      intros [= <- <- <- <-]. apply evict_loop_rec_spec in Hl as (new & _ & _ & _ & _ & h4 & _). auto.
-    - destruct (evict_loop_pre eps E s pq p (at_node a) vs (at_order a) []) as [[s1' done'] v'] eqn:Hl.
-      intros [= <- <- <- <-]. apply evict_loop_pre_spec in Hl as (new & _ & _ & _ & _ & h4 & _). auto. }
-  destruct (if is_reclaim k then _ else _) as [[[s1 done] fits] v1].
-  specialize (Hloop _ _ _ _ eq_refl).
+  destruct (do_evictions eps E k s p pq a n vs) as [[[s1 done] fits] v1] eqn:Hdo.
+  assert (Hloop : heap_ok s1).
+  { unfold do_evictions in Hdo. destruct (at_topo a && negb (is_reclaim k)).
+    - destruct (evict_all eps s vs (at_order a) []) as [[s1' done'] v'] eqn:Hl. injection Hdo as <- <- <- <-.
+      apply evict_all_spec in Hl as (new & _ & _ & _ & _ & h4 & _). auto.
+    - destruct (is_reclaim k).
+      + destruct (evict_loop_rec eps s p (future_idle n) vs (at_order a) []) as [[[s1' done'] av] v'] eqn:Hl.
+        injection Hdo as <- <- <- <-. apply evict_loop_rec_spec in Hl as (new & _ & _ & _ & _ & h4 & _). auto.
+      + destruct (evict_loop_pre eps E s pq p (at_node a) vs (at_order a) []) as [[s1' done'] v'] eqn:Hl.
+        injection Hdo as <- <- <- <-. apply evict_loop_pre_spec in Hl as (new & _ & _ & _ & _ & h4 & _). auto. }
   destruct (negb (v1 =? V_OK)); [intros [= <- <- <- <-]; reflexivity|].
   destruct fits; [|intros [= <- <- <- <-]; reflexivity].
   set (s1f := set_fault E s1 (t_id p) (at_node a)).
